@@ -545,22 +545,31 @@ func calculateReuseIndexFor(r *Rule, oldResTcs []*TrafficShapingController) (equ
 // buildResourceTrafficShapingController builds TrafficShapingController slice from rules. the resource of rules must be equals to res
 func buildResourceTrafficShapingController(res string, rulesOfRes []*Rule, oldResTcs []*TrafficShapingController) []*TrafficShapingController {
 	newTcsOfRes := make([]*TrafficShapingController, 0, len(rulesOfRes))
-	for _, rule := range rulesOfRes {
+	// First match every rule with an equivalent old tc, so that an unchanged rule keeps its tc
+	// even if another rule of the same load could reuse that tc's statistic.
+	equalOldTcs := make([]*TrafficShapingController, len(rulesOfRes))
+	for i, rule := range rulesOfRes {
+		if res != rule.Resource {
+			continue
+		}
+		if equalIdx, _ := calculateReuseIndexFor(rule, oldResTcs); equalIdx >= 0 {
+			equalOldTcs[i] = oldResTcs[equalIdx]
+			// remove old tc from oldResTcs
+			oldResTcs = append(oldResTcs[:equalIdx], oldResTcs[equalIdx+1:]...)
+		}
+	}
+	for i, rule := range rulesOfRes {
 		if res != rule.Resource {
 			logging.Error(errors.Errorf("unmatched resource name expect: %s, actual: %s", res, rule.Resource), "Unmatched resource name in flow.buildResourceTrafficShapingController()", "rule", rule)
 			continue
 		}
-		equalIdx, reuseStatIdx := calculateReuseIndexFor(rule, oldResTcs)
-
 		// First check equals scenario
-		if equalIdx >= 0 {
+		if equalOldTcs[i] != nil {
 			// reuse the old tc
-			equalOldTc := oldResTcs[equalIdx]
-			newTcsOfRes = append(newTcsOfRes, equalOldTc)
-			// remove old tc from oldResTcs
-			oldResTcs = append(oldResTcs[:equalIdx], oldResTcs[equalIdx+1:]...)
+			newTcsOfRes = append(newTcsOfRes, equalOldTcs[i])
 			continue
 		}
+		_, reuseStatIdx := calculateReuseIndexFor(rule, oldResTcs)
 
 		generator, supported := tcGenFuncMap[trafficControllerGenKey{
 			tokenCalculateStrategy: rule.TokenCalculateStrategy,
